@@ -10,7 +10,8 @@ ID = "C03"
 LEVEL = "exploration"
 RULE = ("every byte string written by the C01/C02/C14 serializer workloads (generic and rdflib, three physical "
         "types, all entry points, delimited and single-frame, with and without namespace declarations; one case in five with "
-        "prefix/datatype tables smaller than a row needs, where the serializer may refuse) is decoded by "
+        "prefix/datatype tables smaller than a row needs, where the serializer may refuse; one case in six writes 2-5 sinks with "
+        "repeating namespace bindings through ONE stream via grouped_stream_to_frames/_to_file) is decoded by "
         "rv.wire + rv.refdec (strict graph bracketing); a SpecViolation of any kind, or decoded statements != input "
         "(sequence for generic input, set for rdflib stores/inputs), is a violation. Non-trivial: >= 2 statements and "
         ">= 1 eviction, elision or zero-form id validated; distinct by hash of (config, statements).")
@@ -75,12 +76,46 @@ def check_stream(cfg: dict, stmts: list, ns: list):
     return None, res
 
 
+def check_groups(cfg: dict, groups: list, nss: list):
+    """Several sinks through one stream (lookup, repeated-term and delta state carried across sinks)."""
+    try:
+        data = pj.serialize_groups(cfg, groups, nss)
+    except Exception as e:  # noqa: BLE001
+        return {"clause": "serializer-raised", "summary": f"{type(e).__name__}: {e}"}, None
+    try:
+        res = refdec.decode(wire.dec_stream(data, True), strict_graphs=True)
+    except wire.WireError as e:
+        return {"clause": "wire-malformed", "summary": str(e), "bytes": data.hex()}, None
+    if res.violation is not None:
+        return {"clause": f"spec:{res.violation.kind}", "summary": str(res.violation), "bytes": data.hex()}, res
+    got = [T.norm_stmt(s) for s in res.statements]
+    want = [T.norm_stmt(s) for g in groups for s in g]
+    if (got != want) if cfg["integration"] == "generic" else (set(got) != set(want)):
+        return {"clause": "decoded-differs", "bytes": data.hex(),
+                "summary": f"independent decode of a {len(groups)}-sink stream: {len(got)} statements vs {len(want)} written"}, res
+    return None, res
+
+
 def run_shard(ctx):
     i = 0
     checked = Counter()
     while not ctx.out_of_time():
         rng = ctx.rng(i)
         i += 1
+        if i % 6 == 0:
+            cfg, groups, nss = workloads.multi_sink_case(rng, with_ns=rng.random() < .7)
+            w, res = check_groups(cfg, groups, nss)
+            ctx.observe("multi-sink-streams")
+            if w is not None and w["clause"] != "serializer-raised":
+                w.update({"cfg": cfg, "groups": T.to_json(groups), "nss": nss})
+                ctx.violation(w)
+            elif res is not None:
+                ctx.observe("streams-decoded")
+                checked.update(res.checked)
+            ctx.case(("multi", sorted(cfg.items()), groups, nss), res is not None and len(groups) >= 2,
+                     sample={"kind": "multi-sink", "cfg": cfg, "group_sizes": [len(g) for g in groups],
+                             "bindings_per_sink": [len(n) for n in nss]})
+            continue
         cfg, stmts, ns = workloads.serializer_case(rng, max_len=50 if ctx.tier == "quick" else rng.choice([50, 50, 300]))
         if rng.random() < 0.2:
             # undersized tables: the serializer may refuse (raise); if it writes, the bytes must still be valid
@@ -123,6 +158,10 @@ def run_shard(ctx):
 def replay(w: dict):
     cfg = w["cfg"]
     cfg["preset"] = tuple(cfg["preset"])
+    if "groups" in w:
+        groups = [list(g) for g in T.from_json(w["groups"])]
+        r = check_groups(cfg, groups, [[tuple(b) for b in n] for n in w["nss"]])[0]
+        return r if r and r["clause"] != "serializer-raised" else None
     stmts = list(T.from_json(w["stmts"]))
     ns = [tuple(x) for x in w.get("ns", [])]
     r = check_stream(cfg, stmts, ns)[0]
